@@ -357,10 +357,18 @@ impl<'a, F: FeatureProvider, V: VariationInfo> CompilationCtx<'a, F, V> {
         }
 
         if !self.mark_attach_class_id.is_empty() {
+            // classes may share glyphs: go by class id, not by hash order, so that
+            // the class such a glyph ends up in (the latest one) is always the same
+            let mut sorted = self
+                .mark_attach_class_id
+                .iter()
+                .map(|(cls, id)| (*id, cls))
+                .collect::<Vec<_>>();
+            sorted.sort_unstable();
             gdef.mark_attach_class.extend(
-                self.mark_attach_class_id
-                    .iter()
-                    .flat_map(|(cls, id)| cls.iter().map(|gid| (gid, *id))),
+                sorted
+                    .into_iter()
+                    .flat_map(|(id, cls)| cls.iter().map(move |gid| (gid, id))),
             );
         }
 
